@@ -378,6 +378,7 @@ pub async fn one_execution(seed: u64, stats: &mut BTreeMap<String, u64>, max_ima
 
         // ---- continued operation converges: real sync with the origins, both directions
         let mut converged = false;
+        let mut triggers_after_restart = 0u64;
         for _round in 0..5 {
             for o in 0..n_orig {
                 let st = generate_sync(&bookie, agent.actor_id()).await;
@@ -419,6 +420,19 @@ pub async fn one_execution(seed: u64, stats: &mut BTreeMap<String, u64>, max_ima
                     tokio::time::sleep(Duration::from_millis(2)).await;
                 }
                 wait_ingest_idle().await?;
+                // versions this session completed in the buffer are applied by the agent's own
+                // apply loop: wait for exactly the triggers the hook announced for this node
+                ex.tally.update();
+                if let Some(c) = ex.tally.apply_triggers.remove(&agent.actor_id().to_string()) {
+                    triggers_after_restart += c;
+                }
+                let deadline = Instant::now() + Duration::from_secs(90);
+                while verif::hits("apply_loop.done") - done_before < scheduled + triggers_after_restart {
+                    if Instant::now() > deadline {
+                        return Err("restarted apply loop did not finish the versions completed by sync within 90s".into());
+                    }
+                    tokio::time::sleep(Duration::from_millis(3)).await;
+                }
                 // origin learns from the restarted node
                 let (ra, raddr) = (agent.actor_id(), agent.gossip_addr());
                 let got = ex.nodes[o].sync_from(ra, raddr).await.unwrap_or_default();
